@@ -283,7 +283,7 @@ def s_feeflow(F, res):
             for x in fo:
                 if x.kind == "call" and x.callee == "tx3_cardano::coercion::expr_into_number":
                     ao = mir.provenance(b, du3, x.term["args"][0])
-                    if any(y.kind == "arg" and y.local == 1 and ".fees" in y.proj for y in ao):
+                    if any(y.kind == "arg" and ".fees" in y.proj for y in ao):
                         good3 = True
     if good3:
         res.add([ok("S-FEEFLOW", key3, where(b), "fee: expr_into_number(&tx.fees)")])
